@@ -241,39 +241,63 @@ def _anc(n):
 def r4_edge_update_replaces_exactly_one_edge(ctx, rid):
     """update_var(edge_vars=...) replaces the addressed edge tuple in this template's edge list.  Several edges between the same
     pair of variables are legal and may carry equal attributes, so the tuple to replace must be selected by identity (or by
-    position), not by value: `==` on (source, target, template, attributes) replaces every equal parallel edge."""
-    f = ctx.repo.get_func(FC, "CircuitTemplate.update_var")
-    selfn = f.self_name
-    rebuilds = [st for st in walk_shallow(f.node) if isinstance(st, ast.Assign) and any(
-        isinstance(t, ast.Attribute) and t.attr == "edges" and isinstance(t.value, ast.Name) and t.value.id == selfn for t in st.targets)]
-    if not rebuilds:
-        raise AnalysisError(f"{rid}: update_var no longer re-binds self.edges (edge replacement form not recognised)")
-    for st in rebuilds:
-        v = st.value
-        if not isinstance(v, ast.ListComp) or not isinstance(v.elt, ast.IfExp):
-            raise AnalysisError(f"{rid}: unrecognised edge replacement `{norm(st)}`")
-        test = v.elt.test
-        gen = v.generators[0]
-        over_own_list = isinstance(gen.iter, ast.Attribute) and gen.iter.attr == "edges"
-        if not (isinstance(test, ast.Compare) and len(test.ops) == 1 and over_own_list):
+    position), not by value: `==` on (source, target, template, attributes) replaces every equal parallel edge.
+    Decided on update_var with its private helpers spliced in; the replacement may be a comprehension re-binding self.edges or a
+    loop storing into self.edges[i]."""
+    from engine.inline import inlined
+    from engine.util import normalise
+    f0 = ctx.repo.get_func(FC, "CircuitTemplate.update_var")
+    f = inlined(ctx, f0)
+    selfn = f0.self_name
+
+    def is_edges(e):
+        e = normalise(ctx, f, e) if hasattr(e, "_parent") else e
+        return isinstance(e, ast.Attribute) and e.attr == "edges" and isinstance(e.value, ast.Name) and e.value.id == selfn
+    sites = []          # (statement, selection test, element variable name)
+    for st in walk_shallow(f.node):
+        if isinstance(st, ast.Assign) and any(isinstance(t, ast.Attribute) and is_edges(t) for t in st.targets):
+            v = st.value
+            if isinstance(v, ast.ListComp) and isinstance(v.elt, ast.IfExp) and len(v.generators) == 1 and is_edges(v.generators[0].iter) \
+                    and isinstance(v.generators[0].target, ast.Name):
+                sites.append((st, v.elt.test, v.generators[0].target.id))
+            else:
+                raise AnalysisError(f"{rid}: unrecognised edge replacement `{norm(st)}`")
+        elif isinstance(st, ast.Assign) and len(st.targets) == 1 and isinstance(st.targets[0], ast.Subscript) and is_edges(st.targets[0].value):
+            # self.edges[i] = new  inside `for i, e in enumerate(self.edges): if <test on e>:`
+            loop = next((a for a in _anc(st) if isinstance(a, ast.For)), None)
+            guard = next((a for a in _anc(st) if isinstance(a, ast.If)), None)
+            if loop is None or guard is None or not (isinstance(loop.iter, ast.Call) and call_name(loop.iter) == "enumerate" and loop.iter.args
+                                                      and is_edges(loop.iter.args[0]) and isinstance(loop.target, ast.Tuple)
+                                                      and len(loop.target.elts) == 2 and isinstance(loop.target.elts[1], ast.Name)):
+                raise AnalysisError(f"{rid}: unrecognised edge replacement `{norm(st)}`")
+            sites.append((st, guard.test, loop.target.elts[1].id))
+    if not sites:
+        raise AnalysisError(f"{rid}: update_var no longer replaces an entry of self.edges (edge replacement form not recognised)")
+    for st, test, elem in sites:
+        neg = False
+        while isinstance(test, ast.UnaryOp) and isinstance(test.op, ast.Not):
+            test, neg = test.operand, not neg
+        if not (isinstance(test, ast.Compare) and len(test.ops) == 1):
             raise AnalysisError(f"{rid}: unrecognised selection test in `{norm(st)}`")
         op = test.ops[0]
+        l, r = test.left, test.comparators[0]
+        ref = r if isinstance(l, ast.Name) and l.id == elem else (l if isinstance(r, ast.Name) and r.id == elem else None)
+        if ref is None:
+            raise AnalysisError(f"{rid}: the selection test of `{norm(st)}` does not compare the list element with a reference edge")
         # the reference object must come from this template's own edge map (get_edge) so that identity is meaningful
-        ref = test.comparators[0] if isinstance(test.left, ast.Name) and test.left.id == getattr(gen.target, "id", None) else test.left
-        from engine.util import single_def_value
-        rv = single_def_value(ctx, f, ref) if isinstance(ref, ast.Name) else None
+        rv = normalise(ctx, f, ref)
         from_map = isinstance(rv, ast.Call) and call_name(rv) == "get_edge"
-        facts = {"selection": ast.unparse(test), "reference": ast.unparse(rv) if rv is not None else None}
-        if isinstance(op, ast.Is) and from_map:
-            ctx.ok(rid, f, st, "the edge to replace is selected by identity with the tuple registered in this template's edge map", facts)
-        elif isinstance(op, (ast.Eq,)):
-            ctx.violation(rid, f, st, "the edge to replace is selected by value (`==`): parallel edges between the same variables with equal "
-                                      "attributes are all replaced by the update addressed to one of them", facts)
+        facts = {"selection": ast.unparse(test), "reference": ast.unparse(rv)[:120]}
+        label = "edge to replace is selected by identity"
+        if isinstance(op, (ast.Is, ast.IsNot)) and from_map:
+            ctx.ok(rid, f0, st, "the edge to replace is selected by identity with the tuple registered in this template's edge map", facts, label=label)
+        elif isinstance(op, (ast.Eq, ast.NotEq)):
+            ctx.violation(rid, f0, st, "the edge to replace is selected by value (`==`): parallel edges between the same variables with equal "
+                                       "attributes are all replaced by the update addressed to one of them", facts, label=label)
         elif not from_map:
-            ctx.violation(rid, f, st, "the reference edge is not the tuple returned by get_edge for the addressed (source, target, idx)", facts)
+            ctx.violation(rid, f0, st, "the reference edge is not the tuple returned by get_edge for the addressed (source, target, idx)", facts, label=label)
         else:
             raise AnalysisError(f"{rid}: unrecognised selection operator in `{norm(st)}`")
-
 
 
 def r5_cached_defaults_come_from_the_template(ctx, rid):
